@@ -47,6 +47,27 @@ CLAIMED = {
          "reason; 5 are genuine findings, reproduced and listed), that no time/env/pid/thread/random source is called, that no mutable global state "
          "exists, that manual Hash/Eq pairs are consistent, and that lookups by name are over sets with unique names where the set comes from the tree.",
          "The census is conservative: an unreviewed consumer is reported. Constraint-push order is reviewed as benign by reading, not proved.", "5/C12"),
+ "C13": ("dominance and who-may-write on MIR + order-preservation / stage-barrier / provenance rules on the syntax of lib.rs and io.rs",
+         "Decides the structural clauses: the write loop is dominated by the success of the whole pipeline; only io::write_source (and transpile_dir for "
+         "the output directory) touches the file system; input and output path lists are order-preserving maps of one list, zipped by position, "
+         "renamed to .py, opened with truncate; every stage returns all errors before the next starts; one shared context is built before any check; "
+         "duplicate classes are silently dropped when the context is built (known finding D10).",
+         "Non-interference of an unrelated file and short writes are not decided.", "5/C13"),
+ "C14": ("sibling agreement over computed parser sites (newline-run tolerance) + lexer model + state-machine shape rules on the syntax",
+         "Decides: every parser site that consumes a newline before a continuation tolerates a run of newlines (21 sites, also after every Indent); "
+         "comments are filtered before parsing and never mentioned by the parser; LF and CRLF create the same token; output is normalised to LF "
+         "unconditionally; 1-tuples are folded; spaces count as indentation only before the first token, newline resets unconditionally.",
+         "The invariance of the whole indentation automaton under every trivia placement is not decided (that is executing the machine).", "5/C14"),
+ "C18": ("path enumeration of the lexer's fixed-spelling arms composed with the Display and keyword tables + caret-advance shape rules + must-call on MIR",
+         "Decides consumed = spelled on every one of the 44 fixed-spelling lexer paths, printed form = lexeme + consumed delimiters for the 7 variable "
+         "tokens, the keyword round trip (38 rows), pairwise distinct spellings, caret advance by width and line count in State::token and Lex::new, "
+         "flush_indents and exactly one Eof on the Ok path of tokenize, verbatim re-lexing and offsetting of interpolations.",
+         "Indent/Dedent balance for indentation that is not a multiple of four and byte-vs-char columns for non-ASCII text are not decided.", "5/C18"),
+ "C19": ("provenance tracing of every rendered error on the syntax + non-emptiness of every Err(vector) + renderer obligations from the MIR panic census + index/label agreement of quoted lines",
+         "Decides: every error rendered by mamba_to_python passed with_source of its own file (one known finding: context errors), per-file lists are "
+         "only zipped with lists of equal length, every Err carrying a vector is built from a provably non-empty one (120 sites), the renderers' "
+         "panic obligations are discharged, the quoted text is line label-1 of str::lines and the lexer counts lines where lines() splits.",
+         "`Some diagnostic is on line L` needs the checker's behaviour and is not decided.", "5/C19"),
 }
 NA_REASON_PENDING = "check under construction in this round; see DESIGN.md section 5 for the planned rules"
 
